@@ -4,16 +4,25 @@ from kinds import origin, all_places
 import k4
 
 EXPLANATION = (
-    "Decided statically: (R1) parametricity — the in-place permutation helpers are generic in the element type with "
-    "no capability bound (no Clone/Copy/Default) and contain no unsafe, so safe code can only permute; (R2) the "
-    "permutation components touch a solution only through permutation primitives (swap, reverse, rotate, shuffle, "
-    "the helpers) — no element store; (R3) K4 dynamic-borrow typestate: no variation operator acquires a state guard "
-    "while a conflicting guard on the same type is live (a BorrowMutError panic on every execution of that path); "
-    "(R4) K14 taint: two elements of one choose_multiple() sample (documented as unordered) never become the bounds "
-    "of a Range / slice index without passing an ordering sanitiser (sort, min/max, a dominating comparison); and a "
-    "gen_range whose upper bound is such a sample (can be 0) is not an exclusive range starting at 0. NOT decided: "
-    "agreement of the twin helpers on all inputs, convexity of arithmetic crossover, data-dependent preconditions.")
-ASSUMPTIONS = ["rand::seq::IteratorRandom::choose_multiple returns its sample in unspecified order (as documented)"]
+    "Decided by K6 abstract interpretation of the MIR over one symbolic slice of pairwise distinct opaque elements (the "
+    "helpers are generic in the element type, so one symbolic content stands for every content): (R2) for every index "
+    "tuple of distinct in-range indices (all orders) circular_swap == circular_swap2 == rotation of the values along "
+    "the index cycle; for every (range, index) translocate_slice == translocate_slice2 == remove-the-range-then-insert "
+    "(an input is rejected by both twins or by neither); the in-place helpers carry no Clone/Copy/Default bound "
+    "(parametricity: safe code can only permute). (R6) multi-point crossover over all cut sets, uniform crossover over "
+    "all masks (opaque genes: each position holds the two parental genes, one per child, as the cuts / mask prescribe), "
+    "arithmetic crossover on a float grid (convex, conserving), cycle crossover on all pairs of permutations of length "
+    "<= 4 (children are permutations, positions conserved, cycles not mixed). (R7) every mutation component over every "
+    "sequence of random draws it can request (gates, index samples in every order, target indices; solutions of length "
+    "<= 4): permutation mutations return Ok with a permutation of the same elements; rate-gated mutations keep the "
+    "dimension, read the rate from the state once, gate every position with it and leave ungated positions untouched "
+    "(rate 0: nothing changes). (R5) the recombination driver over 0..5 parents x {None,Single,Both}^pairs. (R9) the "
+    "validating constructors accept exactly their documented domain. Plus (R3) crate-wide K4 guard typestate on the "
+    "variation code and (R4) K14 taint from unordered samples to range bounds / empty gen_range. NOT decided: lengths "
+    "beyond the bound for the data-dependent helpers, unequal-length parents, frequencies of the stochastic choices.")
+ASSUMPTIONS = ["rand::seq::IteratorRandom::choose_multiple returns min(amount, len) distinct members in unspecified order (as documented)",
+               "valid index tuples for circular swap are pairwise distinct and in range; valid populations have dimension >= 2 (> num_swap for SwapMutation)",
+               "gen_bool(0) is never true, gen_bool(1) always; gen_range yields every member of a non-empty range and panics on an empty one"]
 USES_FIXTURES = False
 
 VARIATION_FILES = ("src/components/mutation/", "src/components/recombination/")
@@ -132,9 +141,246 @@ def r4_unordered_samples(ctx):
 
 
 def run(ctx):
+    ctx.guard("C13.R2", "permutation helpers", lambda: r2_helpers(ctx))
     ctx.guard("C13.R3", "guard conflicts", lambda: r3_guards(ctx))
     ctx.guard("C13.R4", "unordered samples", lambda: r4_unordered_samples(ctx))
     ctx.guard("C13.R5", "recombination driver", lambda: r5_recombination_driver(ctx))
+    ctx.guard("C13.R6", "crossover helpers", lambda: r6_crossover_helpers(ctx))
+    ctx.guard("C13.R7", "mutation components", lambda: r7_mutation_components(ctx))
+    ctx.guard("C13.R9", "documented parameter domains", lambda: r9_parameter_domains(ctx))
+
+
+# ------------------------------------------------------------------ R2: the in-place permutation helpers
+
+MF = "mahf::components::mutation::functional::"
+RF = "mahf::components::recombination::functional::"
+
+
+def run_helper(F, fn, args, heap, prefix):
+    """one deterministic evaluation: ('return', final heap, ret) | ('panic', None, None) | ('undecided', why, None)"""
+    from absint import Interp, std_oracle, chain
+    from collmodel import coll_oracle, install
+    it = install(Interp(fn.body, chain(coll_oracle, std_oracle), args, facts=F, inline=lambda k: k.startswith(prefix) or k.startswith("mahf::problems::encoding::"), max_visits=40))
+    it.init_state = {"heap": dict(heap), "next_vec": 0}
+    paths = it.run()
+    ends = {p.end for p in paths}
+    if len(paths) != 1:
+        if ends <= {"panic", "diverge"}:
+            return "panic", None, None
+        return "undecided", "%d paths (%s)" % (len(paths), ",".join(sorted(ends))), None
+    p0 = paths[0]
+    if p0.end in ("panic", "diverge"):
+        return "panic", None, None
+    if p0.end != "return":
+        return "undecided", p0.end, None
+    return "return", p0.mstate.get("heap", {}), p0.ret
+
+
+def r2_helpers(ctx):
+    """K6 over one symbolic slice of n pairwise distinct opaque elements (the helpers are generic in the element
+    type, so the verdict holds for every content) and every index tuple / range / target index:
+    circular_swap == circular_swap2 == the rotation of the values along the index cycle;
+    translocate_slice == translocate_slice2 == remove-the-range-then-insert-at-index; an input is rejected
+    (panic) by both twins or by neither."""
+    import itertools
+    from absint import Sym, Agg, TOP
+    from collmodel import Vec
+    F = ctx.facts
+    N = 7 if ctx.tier == "thorough" else 5
+    cs1, cs2 = F.fn(MF + "circular_swap"), F.fn(MF + "circular_swap2")
+    tl1, tl2 = F.fn(MF + "translocate_slice"), F.fn(MF + "translocate_slice2")
+    for fn in (cs1, tl1):
+        # parametricity: the in-place versions may not copy elements (no Clone/Copy/Default bound on D)
+        preds = " ".join((fn.generics or {}).get("predicates", []))
+        ctx.check(not any(b in preds for b in ("Clone", "Copy", "Default")), "C13.R2", fn.key, "element-type-unbounded",
+                  "the element type of the in-place helper carries a capability bound (%s): it could duplicate or invent elements" % preds, loc=fn.loc())
+    tags = lambda items: [getattr(x, "tag", repr(x)) for x in items]
+    # ---- circular swap
+    bad = []
+    n_in = n_acc = 0
+    for n in range(2, N + 1):
+        elems = tuple(Sym("e%d" % i) for i in range(n))
+        for k in range(2, n + 1):
+            for idx in itertools.permutations(range(n), k):
+                n_in += 1
+                heap = {"perm": elems, "idx": tuple(idx)}
+                res = []
+                for fn in (cs1, cs2):
+                    st, h, _ = run_helper(F, fn, [Vec("perm", True), Vec("idx", True)], heap, MF)
+                    res.append((st, tags(h["perm"]) if st == "return" else h))
+                want = ["e%d" % i for i in range(n)]
+                for j in range(k):
+                    want[idx[j]] = "e%d" % idx[(j - 1) % k]
+                if any(r[0] == "undecided" for r in res):
+                    bad.append((n, list(idx), "could not be evaluated: %s" % (res,)))
+                elif res[0] != res[1]:
+                    bad.append((n, list(idx), "circular_swap gives %s, circular_swap2 gives %s" % (res[0][1] or res[0][0], res[1][1] or res[1][0])))
+                elif res[0][0] == "return":
+                    n_acc += 1
+                    if res[0][1] != want:
+                        bad.append((n, list(idx), "both give %s; the circular swap of these positions is %s" % (res[0][1], want)))
+                else:
+                    bad.append((n, list(idx), "both reject a tuple of %d distinct in-range indices" % k))
+    ctx.check(not bad, "C13.R2", cs1.key, "twins-agree-and-rotate-values",
+              "slice of %s elements, indices %s: %s" % (bad[0] if bad else ("", "", "")), detail="%d index tuples (n<=%d), %d accepted" % (n_in, N, n_acc), loc=cs1.loc())
+    ctx.count("circular_swap_inputs", n_in)
+    ctx.floor("C13.R2", "circular swap index tuples evaluated", n_in, 394)
+    # ---- translocation
+    bad = []
+    n_in = n_acc = 0
+    NT = N + 1
+    for n in range(1, NT + 1):
+        elems = tuple(Sym("e%d" % i) for i in range(n))
+        for start in range(0, n + 1):
+            for end in range(start, n + 1):
+                for index in range(0, n + 1):
+                    n_in += 1
+                    heap = {"perm": elems}
+                    res = []
+                    for fn in (tl1, tl2):
+                        rng = Agg("adt", "core::ops::range::Range", "Range", [start, end])
+                        st, h, _ = run_helper(F, fn, [Vec("perm", True), rng, index], heap, MF)
+                        res.append((st, tags(h["perm"]) if st == "return" else h))
+                    rest = [e.tag for e in elems[:start] + elems[end:]]
+                    chunk = [e.tag for e in elems[start:end]]
+                    want = rest[:index] + chunk + rest[index:] if index <= len(rest) else None
+                    if any(r[0] == "undecided" for r in res):
+                        bad.append((n, "%d..%d" % (start, end), index, "could not be evaluated: %s" % (res,)))
+                    elif res[0] != res[1]:
+                        bad.append((n, "%d..%d" % (start, end), index, "translocate_slice gives %s, translocate_slice2 gives %s" % (res[0][1] or res[0][0], res[1][1] or res[1][0])))
+                    elif res[0][0] == "return":
+                        n_acc += 1
+                        if res[0][1] != want:
+                            bad.append((n, "%d..%d" % (start, end), index, "both give %s; removing the range and inserting it at the index gives %s" % (res[0][1], want)))
+    ctx.check(not bad, "C13.R2", tl1.key, "twins-agree-and-move-the-range",
+              "slice of %s elements, range %s, index %s: %s" % (bad[0] if bad else ("", "", "", "")), detail="%d (range, index) inputs (n<=%d), %d accepted by both" % (n_in, NT, n_acc), loc=tl1.loc())
+    ctx.count("translocate_inputs", n_in)
+    ctx.count("translocate_accepted", n_acc)
+    ctx.floor("C13.R2", "translocation inputs accepted by both twins", n_acc, 100)
+
+
+def _children(h, ret):
+    from absint import Agg
+    from collmodel import Vec
+    if isinstance(ret, Agg) and ret.kind == "array" and len(ret.fields) == 2 and all(isinstance(x, Vec) for x in ret.fields):
+        return [list(h.get(x.vid, ())) for x in ret.fields]
+    return None
+
+
+def r6_crossover_helpers(ctx):
+    """K6: parents are slices of opaque genes a_i / b_i (multi-point, uniform: generic in the gene type), exact floats
+    (arithmetic) or integer permutations (cycle); every cut set / mask / alpha vector of the stated size."""
+    import itertools
+    from absint import Sym
+    from collmodel import Vec
+    F = ctx.facts
+    N = 5 if ctx.tier == "thorough" else 4
+    tg = lambda xs: [getattr(x, "tag", x) for x in xs]
+    # ---- multi-point
+    fn = F.fn(RF + "multi_point_crossover")
+    bad = []
+    cnt = 0
+    for n in range(2, N + 1):
+        A, B = tuple(Sym("a%d" % i) for i in range(n)), tuple(Sym("b%d" % i) for i in range(n))
+        for k in range(1, n):
+            for idx in itertools.permutations(range(n), k):
+                cnt += 1
+                st, h, ret = run_helper(F, fn, [Vec("p1", True), Vec("p2", True), Vec("idx", True)], {"p1": A, "p2": B, "idx": tuple(idx)}, RF)
+                ch = _children(h, ret) if st == "return" else None
+                if ch is None:
+                    bad.append((n, list(idx), "does not return two children (%s)" % (h if st == "undecided" else st)))
+                    continue
+                want1 = [("a%d" if sum(1 for c in idx if c <= i) % 2 == 0 else "b%d") % i for i in range(n)]
+                want2 = [("b%d" if w[0] == "a" else "a%d") % i for i, w in enumerate(want1)]
+                if [tg(ch[0]), tg(ch[1])] != [want1, want2]:
+                    bad.append((n, list(idx), "yields %s / %s; exchanging the tails at every cut point gives %s / %s" % (tg(ch[0]), tg(ch[1]), want1, want2)))
+    ctx.check(not bad, "C13.R6", fn.key, "genes-conserved-per-position", "parents of length %s, cut points %s: multi_point_crossover %s" % (bad[0] if bad else ("", "", "")),
+              detail="%d cut sets" % cnt, loc=fn.loc())
+    ctx.floor("C13.R6", "multi-point cut sets", cnt, 51)
+    # ---- uniform
+    fn = F.fn(RF + "uniform_crossover")
+    bad = []
+    cnt = 0
+    for n in range(0, N + 1):
+        A, B = tuple(Sym("a%d" % i) for i in range(n)), tuple(Sym("b%d" % i) for i in range(n))
+        for mask in itertools.product((False, True), repeat=n):
+            cnt += 1
+            st, h, ret = run_helper(F, fn, [Vec("p1", True), Vec("p2", True), Vec("mask", True)], {"p1": A, "p2": B, "mask": tuple(mask)}, RF)
+            ch = _children(h, ret) if st == "return" else None
+            if ch is None:
+                bad.append((n, list(mask), "does not return two children (%s)" % (h if st == "undecided" else st)))
+                continue
+            want1 = [("b%d" if mask[i] else "a%d") % i for i in range(n)]
+            want2 = [("a%d" if mask[i] else "b%d") % i for i in range(n)]
+            if [tg(ch[0]), tg(ch[1])] != [want1, want2]:
+                bad.append((n, list(mask), "yields %s / %s; expected %s / %s" % (tg(ch[0]), tg(ch[1]), want1, want2)))
+    ctx.check(not bad, "C13.R6", fn.key, "genes-conserved-per-position", "parents of length %s, mask %s: uniform_crossover %s" % (bad[0] if bad else ("", "", "")),
+              detail="%d masks" % cnt, loc=fn.loc())
+    # ---- arithmetic
+    fn = F.fn(RF + "arithmetic_crossover")
+    bad = []
+    cnt = 0
+    vals = (-2.0, 0.5, 3.0)
+    alphas = (0.0, 0.25, 1.0)
+    for n in range(0, 3):
+        for p1 in itertools.product(vals, repeat=n):
+            for p2 in itertools.product(vals, repeat=n):
+                for al in itertools.product(alphas, repeat=n):
+                    cnt += 1
+                    st, h, ret = run_helper(F, fn, [Vec("p1", True), Vec("p2", True), Vec("al", True)], {"p1": p1, "p2": p2, "al": al}, RF)
+                    ch = _children(h, ret) if st == "return" else None
+                    if ch is None or any(len(c) != n or not all(isinstance(x, float) for x in c) for c in ch):
+                        bad.append((list(p1), list(p2), list(al), "does not return two children of the parents' length (%s)" % (h if st == "undecided" else st)))
+                        continue
+                    for i in range(n):
+                        lo, hi = min(p1[i], p2[i]), max(p1[i], p2[i])
+                        c1, c2 = ch[0][i], ch[1][i]
+                        if not (lo - 1e-12 <= c1 <= hi + 1e-12 and lo - 1e-12 <= c2 <= hi + 1e-12):
+                            bad.append((list(p1), list(p2), list(al), "position %d: children %s / %s are not convex combinations of %s and %s" % (i, c1, c2, p1[i], p2[i])))
+                        elif abs((c1 + c2) - (p1[i] + p2[i])) > 1e-12:
+                            bad.append((list(p1), list(p2), list(al), "position %d: children %s + %s do not conserve the parental genes %s + %s" % (i, c1, c2, p1[i], p2[i])))
+                        elif al[i] in (0.0, 1.0) and {c1, c2} != {p1[i], p2[i]}:
+                            bad.append((list(p1), list(p2), list(al), "position %d: with alpha %s the children must be the parental genes" % (i, al[i])))
+    ctx.check(not bad, "C13.R6", fn.key, "convex-and-conserving", "parents %s and %s, alphas %s: arithmetic_crossover %s" % (bad[0] if bad else ("", "", "", "")),
+              detail="%d configurations" % cnt, loc=fn.loc())
+    # ---- cycle
+    fn = F.fn(RF + "cycle_crossover")
+    bad = []
+    cnt = 0
+    for n in range(0, N + 1):
+        if n > 4 and ctx.tier != "thorough":
+            continue
+        for p1 in itertools.permutations(range(n)):
+            for p2 in itertools.permutations(range(n)):
+                cnt += 1
+                st, h, ret = run_helper(F, fn, [Vec("p1", True), Vec("p2", True)], {"p1": p1, "p2": p2}, RF)
+                ch = _children(h, ret) if st == "return" else None
+                if ch is None:
+                    bad.append((list(p1), list(p2), "does not return two children (%s)" % (h if st == "undecided" else st)))
+                    continue
+                c1, c2 = ch
+                if sorted(c1) != list(range(n)) or sorted(c2) != list(range(n)):
+                    bad.append((list(p1), list(p2), "yields %s / %s, which are not permutations" % (c1, c2)))
+                    continue
+                if any({c1[i], c2[i]} != {p1[i], p2[i]} for i in range(n)):
+                    bad.append((list(p1), list(p2), "yields %s / %s: some position does not hold the two parental genes" % (c1, c2)))
+                    continue
+                # positions of one cycle come from the same parent
+                seen = set()
+                for s0 in range(n):
+                    if s0 in seen:
+                        continue
+                    cyc, pos = [], s0
+                    while pos not in seen:
+                        seen.add(pos)
+                        cyc.append(pos)
+                        pos = p1.index(p2[pos])
+                    src = {("p1" if c1[i] == p1[i] else "p2") for i in cyc if p1[i] != p2[i]}
+                    if len(src) > 1:
+                        bad.append((list(p1), list(p2), "child %s mixes both parents inside the cycle %s" % (c1, cyc)))
+    ctx.check(not bad, "C13.R6", fn.key, "children-are-permutations", "parents %s and %s: cycle_crossover %s" % (bad[0] if bad else ("", "", "")),
+              detail="%d parent pairs" % cnt, loc=fn.loc())
+    ctx.count("crossover_helper_inputs", cnt)
 
 
 # ------------------------------------------------------------------ R5: the recombination driver
@@ -243,3 +489,288 @@ def heap_get_path(p, v):
     if isinstance(v, Vec):
         return p.mstate.get("heap", {}).get(v.vid, ())
     return ()
+
+
+# ------------------------------------------------------------------ R7: the mutation components, every draw sequence
+
+class NeedDraw(Exception):
+    def __init__(self, domain):
+        Exception.__init__(self, "draw")
+        self.domain = domain
+
+
+def explore(run_with_script, limit=20000):
+    """depth-first enumeration of every sequence of random draws the code can ask for"""
+    stack = [()]
+    out = []
+    while stack:
+        script = stack.pop()
+        try:
+            res = run_with_script(script)
+        except NeedDraw as nd:
+            for v in nd.domain:
+                stack.append(script + (v,))
+            continue
+        out.append((script, res))
+        if len(out) > limit:
+            raise RuntimeError("more than %d draw sequences" % limit)
+    return out
+
+
+MC = "mahf::components::mutation::common::"
+IND = "mahf::problems::individual::Individual"
+
+
+def draw_oracle(script, rate, extra=None):
+    """random draws answered from the script (NeedDraw with the domain when it is exhausted)"""
+    import itertools
+    from absint import Sym, Agg, TOP, some, ok
+    from collmodel import load, new_vec
+    extra = extra or {}
+
+    def take(interp, domain):
+        i = interp.mstate.get("draw_i", 0)
+        if i >= len(script):
+            raise NeedDraw(domain)
+        interp.mstate["draw_i"] = i + 1
+        interp.mstate["draws"] = interp.mstate.get("draws", ()) + (script[i],)
+        return script[i]
+
+    def oracle(interp, env, f, args, t, bb, path):
+        k = f.get("key", "")
+        if k in extra:
+            v = extra[k]
+            return v(interp, env, f, args) if callable(v) else v
+        if k in ("mahf::state::State::populations_mut", "mahf::state::State::populations"):
+            return Sym("populations")
+        if k == "mahf::state::State::random_mut":
+            return Sym("rng")
+        if k in ("mahf::state::common::Populations::current_mut",):
+            from collmodel import Vec
+            return Vec("cur", True)
+        if k in ("mahf::state::registry::StateRegistry::borrow", "mahf::state::registry::StateRegistry::get_value", "mahf::state::registry::StateRegistry::borrow_value"):
+            ga = (f.get("gargs") or [""])[0]
+            if ga.startswith("mahf::components::mutation::MutationRate<"):
+                interp.mstate["rate_reads"] = interp.mstate.get("rate_reads", 0) + 1
+                r = Agg("adt", "mahf::components::mutation::MutationRate", "MutationRate", [rate, Sym("phantom")])
+                return r if k.endswith("::borrow") else rate
+            if ga.startswith("mahf::components::mutation::MutationStrength<"):
+                r = Agg("adt", "mahf::components::mutation::MutationStrength", "MutationStrength", [0.5, Sym("phantom")])
+                return r if k.endswith("::borrow") else 0.5
+            return TOP
+        if k == "rand::rng::Rng::gen_bool":
+            p_ = load(interp, env, args[1])
+            if not isinstance(p_, float):
+                return TOP
+            if not (0.0 <= p_ <= 1.0):
+                return "DIVERGE"
+            interp.mstate["gates"] = interp.mstate.get("gates", ()) + (p_,)
+            return take(interp, [False] if p_ == 0.0 else [True] if p_ == 1.0 else [False, True])
+        if k == "rand::rng::Rng::gen_range":
+            r = load(interp, env, args[1])
+            if isinstance(r, Agg) and (r.name or "").startswith("core::ops::range::Range") and all(isinstance(x, int) and not isinstance(x, bool) for x in r.fields[:2]):
+                lo, hi = r.fields[0], r.fields[1] + (1 if r.name.endswith("Inclusive") else 0)
+                if lo >= hi:
+                    return "DIVERGE"     # rand panics on an empty range
+                return take(interp, list(range(lo, hi)))
+            return Sym("draw")
+        if k == "rand::seq::IteratorRandom::choose_multiple":
+            r = load(interp, env, args[0])
+            amount = load(interp, env, args[2])
+            if isinstance(r, Agg) and r.name == "core::ops::range::Range" and isinstance(amount, int) and all(isinstance(x, int) for x in r.fields[:2]):
+                vals = list(range(r.fields[0], r.fields[1]))
+                kk = min(amount, len(vals))
+                return new_vec(interp, take(interp, list(itertools.permutations(vals, kk))))
+            return TOP
+        if k == "rand_distr::normal::Normal::new":
+            return ok(Sym("normal"))
+        if k in ("rand::distributions::uniform::Uniform::new", "rand::distributions::uniform::Uniform::new_inclusive"):
+            return Sym("uniform")
+        if k == "rand::distributions::distribution::Distribution::sample":
+            return Sym("noise")
+        if k == "rand::seq::SliceRandom::choose":
+            return some(1.0)
+        return TOP
+    return oracle
+
+
+def run_component(F, fn, me, sols, rate, extra=None, heap_extra=None):
+    """[(draw script, end, ret, final solutions, mstate)] over every draw sequence"""
+    from absint import Interp, Sym, Agg, some, std_oracle, chain
+    from collmodel import coll_oracle, install, Vec
+    inl = lambda k: (k.startswith("mahf::problems::individual::") or k.startswith("<mahf::problems::individual::") or k.startswith("mahf::population::") or "as mahf::population::" in k
+                     or k.startswith("mahf::components::mutation::") or k.startswith("<mahf::components::mutation::"))
+
+    def once(script):
+        it = install(Interp(fn.body, chain(draw_oracle(script, rate, extra), coll_oracle, std_oracle), [me, Sym("problem"), Sym("state")], facts=F, inline=inl, max_visits=60))
+        heap = {"cur": tuple(Agg("adt", IND, "Individual", [Vec("s%d" % i), some(Sym("o%d" % i))]) for i in range(len(sols)))}
+        for i, sv in enumerate(sols):
+            heap["s%d" % i] = tuple(sv)
+        heap.update(heap_extra or {})
+        it.init_state = {"heap": heap, "next_vec": 0}
+        return it.run()
+    out = []
+    for script, paths in explore(once):
+        for p in paths:
+            final = [list(p.mstate.get("heap", {}).get("s%d" % i, ())) for i in range(len(sols))]
+            out.append((script, p.end, p.ret, final, p.mstate))
+    return out
+
+
+def r7_mutation_components(ctx):
+    """K6 over populations of 1-2 solutions of length 2..4 (opaque elements; concrete bits for the bit mutations) and
+    EVERY sequence of random draws the component can ask for (gate outcomes, index samples in every order, target
+    indices): permutation mutations return Ok with a permutation of the same elements; rate-gated mutations keep the
+    dimension, take the rate from the state (not the constructor field), and leave unchanged every position whose gate
+    did not fire — with rate 0 nothing changes."""
+    from absint import Sym, Agg, TOP
+    from collmodel import Vec
+    F = ctx.facts
+    COMP = "mahf::components::Component"
+    tg = lambda xs: [getattr(x, "tag", x) for x in xs]
+    total = 0
+    # ---- permutation mutations
+    perm = [("SwapMutation", {"num_swap": (2, 3)}, 3), ("InversionMutation", {}, 2), ("InsertionMutation", {}, 2), ("TranslocationMutation", {}, 2), ("ScrambleMutation", {"rm": (1.0,)}, 2)]
+    NMAX = 5 if ctx.tier == "thorough" else 4
+    for name, params, nmin in perm:
+        adt = MC + name
+        fn = F.method(adt, "execute", COMP)
+        bad = []
+        cnt = 0
+        pname = next(iter(params), None)
+        for pv in (params[pname] if pname else (None,)):
+            for n in range(max(nmin, (pv + 1) if name == "SwapMutation" else 0), NMAX + 1):
+                fields = {}
+                if pname:
+                    fields[F.field_index(adt, pname)] = pv
+                me = Sym("self", fields)
+                sol = [Sym("e%d" % i) for i in range(n)]
+                for (script, end, ret, final, ms) in run_component(F, fn, me, [sol], 1.0 if name == "ScrambleMutation" else 0.3):
+                    cnt += 1
+                    where = (n, "%s=%s, " % (pname, pv) if pname else "", list(script))
+                    if end != "return":
+                        bad.append(where + ("panics" if end in ("panic", "diverge") else "could not be evaluated (%s)" % end,))
+                    elif not (isinstance(ret, Agg) and ret.variant == "Ok"):
+                        bad.append(where + ("returns %s" % (ret,),))
+                    elif sorted(tg(final[0]), key=str) != sorted(tg(sol), key=str):
+                        bad.append(where + ("turns %s into %s, which is not a permutation of it" % (tg(sol), tg(final[0])),))
+                    elif name == "ScrambleMutation" and "s0" not in ms.get("shuffled", ()):
+                        bad.append(where + ("does not shuffle the solution although the gate fired",))
+        total += cnt
+        ctx.check(not bad, "C13.R7", fn.key, "valid-population-gives-permutation",
+                  "solution of length %s, %sdraws %s: %s" % (bad[0] if bad else ("", "", "", "")), detail="%d draw sequences" % cnt, loc=fn.loc())
+        ctx.floor("C13.R7", "%s draw sequences" % name, cnt, 3)
+    # ---- rate-gated mutations
+    gated = [("NormalMutation", "real"), ("UniformMutation", "real"), ("PartialRandomSpread", "real"), ("BitFlipMutation", "bit"), ("PartialRandomBitstring", "bit"), ("ScrambleMutation", "perm")]
+    for name, kind in gated:
+        adt = MC + name
+        fn = F.method(adt, "execute", COMP)
+        bad = []
+        cnt = 0
+        rm_i = F.field_index(adt, "rm")
+        for rate, field_rm in ((0.0, 1.0), (0.3, 1.0), (1.0, 0.0)):
+            for n in range(1, 4):
+                fields = {rm_i: field_rm}
+                for fname, val in (("std_dev", 0.5), ("bound", 0.5), ("p", 0.5)):
+                    try:
+                        fields[F.field_index(adt, fname)] = val
+                    except Exception:
+                        pass
+                me = Sym("self", fields)
+                sol = [bool(i % 2) for i in range(n)] if kind == "bit" else [Sym("e%d" % i) for i in range(n)]
+                extra = {"mahf::problems::LimitedVectorProblem::domain": lambda interp, env, f, args, n=n: __import__("collmodel").new_vec(interp, [Agg("adt", "core::ops::range::Range", "Range", [-1.0, 1.0]) for _ in range(n)])}
+                for (script, end, ret, final, ms) in run_component(F, fn, me, [sol], rate, extra):
+                    cnt += 1
+                    where = (n, rate, field_rm, list(script))
+                    gates = ms.get("gates", ())
+                    if end != "return" or not (isinstance(ret, Agg) and ret.variant == "Ok"):
+                        bad.append(where + ("ends with %s %s" % (end, ret),))
+                        continue
+                    if len(final[0]) != n:
+                        bad.append(where + ("changes the dimension to %d" % len(final[0]),))
+                        continue
+                    gate_ps = list(gates)
+                    if name == "PartialRandomBitstring":
+                        # draws alternate: gate, then (when it fired) the new bit drawn with probability p
+                        gate_ps, ds, j = [], list(ms.get("draws", ())), 0
+                        while j < len(ds) and j < len(gates):
+                            gate_ps.append(gates[j])
+                            j += 2 if ds[j] else 1
+                    if any(g != rate for g in gate_ps) or ms.get("rate_reads", 0) != 1:
+                        bad.append(where + ("gates with probability %s (reads of the stored rate: %d)" % (list(gates), ms.get("rate_reads", 0)),))
+                        continue
+                    if kind == "perm":
+                        fired = [d for d in ms.get("draws", ()) if isinstance(d, bool)]
+                        if len(fired) != 1 or (fired[0] != ("s0" in ms.get("shuffled", ()))):
+                            bad.append(where + ("gate outcome %s but shuffled: %s" % (fired, "s0" in ms.get("shuffled", ())),))
+                        continue
+                    fired = [d for d in ms.get("draws", ()) if isinstance(d, bool)][:n] if name != "PartialRandomBitstring" else None
+                    if name == "PartialRandomBitstring":
+                        # draws alternate gate / (value when the gate fired)
+                        fired, ds, j = [], list(ms.get("draws", ())), 0
+                        while j < len(ds) and len(fired) < n:
+                            fired.append(ds[j])
+                            j += 2 if ds[j] else 1
+                    if len(fired) != n:
+                        bad.append(where + ("draws %d gates for %d positions" % (len(fired), n),))
+                        continue
+                    for i in range(n):
+                        same = (final[0][i] is sol[i]) or (not isinstance(sol[i], Sym) and final[0][i] is not TOP and final[0][i] == sol[i] and type(final[0][i]) == type(sol[i]))
+                        if not fired[i] and not same:
+                            bad.append(where + ("position %d changes from %s to %s although its gate did not fire" % (i, sol[i], final[0][i]),))
+                        if fired[i] and name == "BitFlipMutation" and final[0][i] != (not sol[i]):
+                            bad.append(where + ("position %d is not flipped although its gate fired" % i,))
+        total += cnt
+        ctx.check(not bad, "C13.R7", fn.key, "rate-gates-every-position",
+                  "dimension %s, stored rate %s (constructor field %s), draws %s: %s" % (bad[0] if bad else ("", "", "", "", "")), detail="%d draw sequences" % cnt, loc=fn.loc())
+        ctx.floor("C13.R7", "%s gate sequences" % name, cnt, 5)
+    ctx.count("mutation_component_draw_sequences", total)
+
+
+# ------------------------------------------------------------------ R9: documented parameter domains
+
+def r9_parameter_domains(ctx):
+    """The validating constructors accept exactly what their documentation allows (table below, read from the
+    doc comments): K6 evaluation of the constructor on values on both sides of every documented bound."""
+    from absint import Interp, Sym, Agg, TOP, std_oracle, chain
+    from collmodel import coll_oracle, install
+    F = ctx.facts
+    nan = float("nan")
+    table = [
+        # (constructor, argument tuples, documented predicate, doc quote)
+        ("mahf::components::mutation::common::SwapMutation::from_params", [(k,) for k in range(0, 6)], lambda k: k >= 2,
+         "`Err` if `num_swap` is less than two"),
+        ("mahf::components::mutation::de::DEMutation::from_params", [(y, f) for y in range(0, 4) for f in (1e-9, 0.5, 2.0)], lambda y, f: y in (1, 2),
+         "y in {1, 2}, f in (0, 2]"),
+        ("mahf::components::mutation::de::DEMutation::from_params", [(1, f) for f in (-0.5, 2.5, nan)], lambda y, f: False,
+         "f in (0, 2]"),
+    ]
+    n = 0
+    for key, inputs, allowed, doc in table:
+        fn = F.fn(key)
+        bad = []
+        for args in inputs:
+            n += 1
+            it = install(Interp(fn.body, chain(coll_oracle, std_oracle), list(args), facts=F, inline=lambda k: False, max_visits=6))
+            it.init_state = {"next_vec": 0}
+            paths = it.run()
+            outs = {(p.end, p.ret.variant if isinstance(p.ret, Agg) else None) for p in paths}
+            want = ("return", "Ok" if allowed(*args) else "Err")
+            if outs != {want}:
+                bad.append((args, "Ok" if allowed(*args) else "Err", sorted(map(str, outs))))
+        ctx.check(not bad, "C13.R9", key, "accepts-documented-domain:" + doc,
+                  "arguments %s: documented outcome %s, the constructor gives %s" % (bad[0] if bad else ("", "", "")), detail="%d argument tuples; documentation: %s" % (len(inputs), doc), loc=fn.loc())
+    # the stored mutation rate: [0, 1] accepted and returned unchanged, everything else an error
+    fn = F.fn("mahf::components::mutation::MutationRate::value")
+    bad = []
+    for r in (0.0, 0.3, 1.0, -0.1, 1.5, nan):
+        n += 1
+        me = Agg("adt", "mahf::components::mutation::MutationRate", "MutationRate", [r, Sym("phantom")])
+        it = install(Interp(fn.body, chain(coll_oracle, std_oracle), [me], facts=F, inline=lambda k: False, max_visits=6))
+        paths = it.run()
+        outs = [(p.end, p.ret.variant if isinstance(p.ret, Agg) else None, p.ret.fields[0] if isinstance(p.ret, Agg) and p.ret.fields else None) for p in paths]
+        good = 0.0 <= r <= 1.0
+        if len(outs) != 1 or outs[0][:2] != ("return", "Ok" if good else "Err") or (good and outs[0][2] != r):
+            bad.append((r, outs))
+    ctx.check(not bad, "C13.R9", fn.key, "rate-in-unit-interval", "stored rate %s: value() gives %s" % (bad[0] if bad else ("", "")), loc=fn.loc())
+    ctx.count("constructor_argument_tuples", n)
